@@ -484,6 +484,27 @@ pub fn gen_variant(seed: u64, idx: u64, variant: &str) -> c01::Case {
             case.set = SampleSet { samples };
             case.desc["gen"] = json!(format!("orphans: {n} samples x 15 contigs of 8..{} bases + one of 200", k - 1));
         }
+        "orphans-many" => {
+            // ONE batch with more than 16 * 98 splitter-less records: a raw group then completes its
+            // first pack (placeholder + 49) AND a second one (50, no placeholder) inside one flush
+            let k = case.params.k.max(15);
+            case.params.k = k;
+            case.single_file = false;
+            let mk = |rng: &mut Rng, name: &str, n: usize| -> Sample {
+                let mut contigs: Vec<(String, Vec<u8>)> = (0..n)
+                    .map(|c| {
+                        let len = rng.range(1, (k - 1) as u64) as usize;
+                        (format!("{}_c{}", name, c), genomes::random_seq(rng, len))
+                    })
+                    .collect();
+                contigs.insert(0, (format!("{}_long", name), genomes::random_seq(rng, 300)));
+                Sample { name: name.to_string(), contigs }
+            };
+            let n2 = rng.range(1600, 1750) as usize;
+            let samples = vec![mk(&mut rng, "r0", 20), mk(&mut rng, "q1", n2)];
+            case.set = SampleSet { samples };
+            case.desc["gen"] = json!(format!("orphans-many: 2 files, the second with {n2} records of 1..{} bases", k - 1));
+        }
         _ => {}
     }
     case.desc["params"] = case.params.to_json();
@@ -498,7 +519,7 @@ fn case_for(seed: u64, idx: u64, big: bool, variant: &str) -> c01::Case {
 pub fn run(ctx: &mut Ctx) -> Report {
     let mut rep = Report::new(
         "C02",
-        "archives of the C01 generator (same (seed,index) space, plus the two targeted variants many-samples / orphans) \
+        "archives of the C01 generator (same (seed,index) space, plus the targeted variants many-samples / orphans / orphans-many) \
          written by ragc, read by the independent Lean decoder; \
          a case is non-trivial when it has >= 2 samples; distinct by generator description",
     );
@@ -522,6 +543,7 @@ pub fn run(ctx: &mut Ctx) -> Report {
         let variant = match i % 12 {
             0 => "many-samples",
             1 => "orphans",
+            2 => "orphans-many",
             _ => "",
         };
         let case = case_for(seed, idx, i % 13 == 5, variant);
